@@ -11,6 +11,9 @@ KEYS = ("entered_P", "left_P", "useful")
 def run(ctx):
     n = 10 if ctx.quick else 60
     recs = scenarios.collect(ctx, algrun.ALGOS, n, small=ctx.quick)
+    for kind in ("stale-witness", "nonpess-coverer", "tie"):
+        for v in range(2 if ctx.quick else 3):
+            recs.append(scenarios.run_spec(scenarios.epal_directed(kind, variant=v), max_steps=6))
     an = algcheck.Analysis(ctx, recs)
     viol = algcommon.diff_violations(an, KEYS, "C03")
     for r in recs:
